@@ -56,6 +56,8 @@ def gen(ck):
             ph = cons(lst([opx]), operands)
             cases.append((ph, envs_small, "pairhead"))
             cases.append((lst([G.A, G.q(ph), "x01"]), envs_small, "pairhead"))
+            cases.append((lst([G.A, G.q(ph), "x05"]), envs_small, "pairhead"))
+            cases.append((lst([G.A, G.q(ph), lst([G.C, "x02", "x03"])]), envs_small, "pairhead"))
             cases.append((lst([G.C, G.q("x01"), ph]), envs_small, "pairhead"))
             cases.append((cons(cons(opx, "x05"), operands), envs_small, "pairhead"))
     # (b) typed random
@@ -78,6 +80,9 @@ def gen(ck):
         for op in (G.F, G.R):
             cases.append((lst([op, pa]), envs, "path_fr"))
             cases.append((lst([op, lst([op, pa])]), [G.env_for_path(p, leaf=cons(cons("x41", "x42"), cons("x43", "x44")))] if p >= 1 else envs, "path_fr2"))
+        # re-rooting on the path itself: (a (q . X) P)
+        for body in ("x02", "x01", lst([G.C, "x03", "x02"]), lst([G.F, "x01"])):
+            cases.append((lst([G.A, G.q(body), pa]), [G.env_for_path(p, leaf=cons(cons("x41", "x42"), cons("x43", "x44")))] if p >= 1 else envs, "reroot_path"))
         # re-rooting: (a (q . (c P 2)) ENVEXPR) with ENVEXPR = 1, a path, a cons
         for envexpr in ("x01", "x03", lst([G.C, "x02", "x03"]), lst([G.C, "x01", "x01"])):
             cases.append((lst([G.A, G.q(lst([G.C, pa, "x02"])), envexpr]), envs, "reroot"))
